@@ -21,7 +21,7 @@ VALS = (ABSENT, "x", "y", ["x"])
 VALS_NULL = (ABSENT, "x", ["x"], None, 0)  # JSON null / falsy values are values, not absence
 KEYLISTS = [("a",), ("b",), ("c",), ("a", "b"), ("b", "a"), ("a", "c"), ("c", "a"), ("b", "c"), ("c", "b"), ("a", "b", "c")]
 BOUNDS = {
-    "quick": {"merge": "lists of <=4 events over 16 data shapes (a,b in {absent,x,y,[x]}) and lists of <=3 over 25 shapes (a,b in {absent,x,[x],null,0}), durations 2^i and a zero-duration variant, 10 key lists", "chunk": "key-bearing sequences of <=4 events, values {x,y,[x]}, gaps 0/1 unit within a 4-unit span", "sort": "lists of <=4 over 3 timestamps x 3 durations", "limit": "counts 0..n+1", "filter": "lists of <=3 over 5 value shapes x 6 vals lists"},
+    "quick": {"merge_dict_order": "whenever >=2 keys are given, every second event builds its data dict in the opposite key order", "merge": "lists of <=4 events over 16 data shapes (a,b in {absent,x,y,[x]}) and lists of <=3 over 25 shapes (a,b in {absent,x,[x],null,0}), durations 2^i and a zero-duration variant, 10 key lists", "chunk": "key-bearing sequences of <=4 events, values {x,y,[x]}, gaps 0/1 unit within a 4-unit span", "sort": "lists of <=4 over 3 timestamps x 3 durations", "limit": "counts 0..n+1", "filter": "lists of <=3 over 5 value shapes x 6 vals lists"},
     "thorough": {"merge": "as quick", "chunk": "<=5 events", "sort": "<=5", "filter": "<=4"},
 }
 RULE = (
@@ -36,11 +36,15 @@ ASSUMPTIONS = [
 _G = {}
 
 
-def mkdata(a, b):
+def mkdata(a, b, swapped=False):
+    """swapped: key b is inserted into the dict before key a (a seeded grouping key followed each
+    event's own dict order, so equal events with differently ordered dicts fell into two groups)"""
     d = {}
+    if swapped and b != ABSENT:
+        d["b"] = deepcopy(b)
     if a != ABSENT:
         d["a"] = deepcopy(a)
-    if b != ABSENT:
+    if b != ABSENT and "b" not in d:
         d["b"] = deepcopy(b)
     return d
 
@@ -51,6 +55,9 @@ def cj(x):
 
 def check_merge(emb, shapes, keys, zero=False):
     evs = [emb.ev(i, 0 if zero and i == 0 else 2 ** i, mkdata(*sh)) for i, sh in enumerate(shapes)]
+    if len(shapes) >= 2 and len(keys) >= 2:
+        # odd positions build their dict in the other key order
+        evs = [emb.ev(i, 0 if zero and i == 0 else 2 ** i, mkdata(*sh[:2], swapped=bool(i % 2))) for i, sh in enumerate(shapes)]
     snap = [S.ev_tuple(e) for e in evs]
     try:
         out = merge_events_by_keys(evs, list(keys))
@@ -195,7 +202,7 @@ def _unit(args):
                     u.transitions += 1
                     for sym, det in check_merge(emb, it, keys, zero)[:1]:
                         case = {"fn": "merge", "shapes": [list(x) for x in it], "keys": list(keys), "zero": zero}
-                        u.violation(f"merge_events_by_keys:{sym}", f"events data {[mkdata(*s) for s in it]} keys {list(keys)}: {det}", case, size=len(it) * 1000 + len(keys) * 10 + len(json.dumps(case)))
+                        u.violation(f"merge_events_by_keys:{sym}", f"events data {[mkdata(*s[:2], swapped=bool(i % 2) and len(keys) >= 2 and len(it) >= 2) for i, s in enumerate(it)]} keys {list(keys)}: {det}", case, size=len(it) * 1000 + len(keys) * 10 + len(json.dumps(case)))
         elif kind == "chunk":
             u.evaluations += 1
             u.transitions += 1
